@@ -17,11 +17,22 @@
         (commitRound), and only if the block is valid;
     L5  a non-nil prevote is for the locked block or for a block that passed validation.
 
-  PARTIAL (named): the lift of L1–L5 to a ghost-history invariant over arbitrary input sequences
-  (induction over `handleMsg`/`handleTimeout` runs) is not yet mechanised; the run-level statement
-  is checked on every run by the Go-side monitor of the c04 engine against the real node.
+  Over every RUN (any sequence of peer messages from any peers, own queued messages and timeouts;
+  Lemmas/NodeMono.lean, Lemmas/Assembled.lean - inductive invariants through every handler):
+    L6  the node never goes back: (height, round, step) only grows lexicographically; every own
+        vote is signed for the height and round the node is in (`signAddVote`), so the votes of a
+        run are in non-decreasing (height, round) order - a lock taken in round r is never followed
+        by a vote of an earlier round;
+    L7  a commit is emitted only with the block's complete part set (C08.X10).
+
+  PARTIAL (named): L1-L5 hold for every state and argument, reachable or not, so they hold along
+  every run; what is not mechanised is their lift to a ghost HISTORY (the vote sets are cleared by
+  the commit inside the same handler call that may have queued a vote, so "had +2/3 prevotes when
+  it was queued" needs the intermediate states of one handler call). That run-level statement is
+  checked on every run by the Go-side monitor of the c04 engine against the real node.
 -/
 import AnnVerif.Model.Node
+import AnnVerif.Lemmas.NodeMono
 namespace AnnVerif.C04
 open AnnVerif AnnVerif.Node
 
@@ -214,5 +225,44 @@ def demo : Node :=
   drain n
 
 example : demo.lockedBlock = some [0x62] ∧ demo.lockedRound = 0 ∧ demo.step = .precommit := by decide
+
+/-! ### L6/L7: over every run -/
+
+/-- L6: after ANY sequence of inputs the node stands at a (height, round, step) at least as far as
+    where it started - nothing a peer sends and no timeout takes it back. -/
+theorem run_never_goes_back (n : Node) (ins : List In) : Le n (ins.foldl stepIn n) := le_run ins n
+
+/-- one input: spelled out -/
+theorem step_never_goes_back (n : Node) (i : In) :
+    n.height < (stepIn n i).height ∨
+    (n.height = (stepIn n i).height ∧
+      (n.round < (stepIn n i).round ∨
+       (n.round = (stepIn n i).round ∧ n.step.toNat ≤ (stepIn n i).step.toNat))) := le_stepIn n i
+
+/-- own votes carry the node's current height and round -/
+theorem own_vote_is_for_current_round (n : Node) (t : Nat) (bid : VoteSet.BlockID) :
+    ∀ m ∈ (signAddVote n t bid).queue, m ∈ n.queue ∨
+      ∃ i a, m = .vote ⟨i, a, n.height, n.round, t, bid, 0⟩ true := by
+  intro m hm
+  unfold signAddVote at hm
+  split at hm
+  · dsimp only at hm
+    split at hm
+    · simp only [List.mem_append, List.mem_singleton] at hm
+      rcases hm with hm | hm
+      · exact Or.inl hm
+      · exact Or.inr ⟨_, _, hm⟩
+    · exact Or.inl hm
+  · exact Or.inl hm
+
+/-- L7: in a run from a fresh (repaired) node a commit is only ever emitted by `finalizeCommit`
+    holding the complete part set of the block: the save panic is never emitted. -/
+theorem run_commits_complete_blocks (height : Int) (vals : ValSet.ValSet) (me : Option Nat) (skip : Bool)
+    (ins : List In) : savePanic ∉ (ins.foldl stepIn (Node.init repaired height vals me skip)).out :=
+  (run_good ins _ (init_good height vals me skip)).nsp
+
+example : Le (Node.init repaired 1 v4 (some 1) false) demo ∧ demo.step = .precommit := by
+  refine ⟨?_, by decide⟩
+  unfold Le; decide
 
 end AnnVerif.C04
